@@ -216,7 +216,7 @@ def Kind.isTab : Kind → Bool
 /-- `redistribute_distribution_num_cols`; `ceil((double)size_col / nb)` is `(size_col + nb - 1) / nb`. -/
 def distNumCols (d : Desc) (sizeCol : Nat) : Int :=
   match d.kind with
-  | .tab nodes => let tc := (sizeCol + d.nb - 1) / d.nb; if tc ≤ nodes then tc else nodes
+  | .tab nodes => if (sizeCol + d.nb - 1) / d.nb ≤ nodes then ((sizeCol + d.nb - 1) / d.nb : Nat) else nodes
   | .bc gc kc => gc * kc
   | .sbcLower r => r
   | .sbcUpper r => r
@@ -224,13 +224,11 @@ def distNumCols (d : Desc) (sizeCol : Nat) : Int :=
 
 /-- `redistribute_pair_num_cols` -/
 def pairNumCols (dY dT : Desc) (sizeCol : Nat) : Int :=
-  let a := distNumCols dY sizeCol
-  let b := distNumCols dT sizeCol
-  if a ≤ 0 ∨ b ≤ 0 then -1
-  else if dY.kind.isTab && dT.kind.isTab then a
-  else if dY.kind.isTab then b
-  else if dT.kind.isTab then a
-  else if a ≥ b then a else b
+  if distNumCols dY sizeCol ≤ 0 ∨ distNumCols dT sizeCol ≤ 0 then -1
+  else if dY.kind.isTab && dT.kind.isTab then distNumCols dY sizeCol
+  else if dY.kind.isTab then distNumCols dT sizeCol
+  else if dT.kind.isTab then distNumCols dY sizeCol
+  else if distNumCols dY sizeCol ≥ distNumCols dT sizeCol then distNumCols dY sizeCol else distNumCols dT sizeCol
 
 /-- `redistribute_region_is_stored` -/
 def regionIsStored (d : Desc) (sizeRow sizeCol disi disj : Nat) : Bool :=
@@ -245,6 +243,14 @@ inductive Path where
   | general
 deriving Repr, DecidableEq
 
+/-- The request as the taskpools see it (the wrapper passes its arguments through; `_g_num_col` is set to
+    the result of `redistribute_pair_num_cols`). -/
+def mkParams (dY dT : Desc) (sizeRow sizeCol diY djY diT djT : Int) : Params :=
+  ⟨dY.mb, dY.nb, dT.mb, dT.nb, sizeRow.toNat, sizeCol.toNat, diY.toNat, djY.toNat, diT.toNat, djT.toNat,
+   (pairNumCols dY dT sizeCol.toNat).toNat⟩
+
+def pathOf (p : Params) : Path := if p.optimized then .reshuffle else .general
+
 /-- `parsec_redistribute_New` up to the creation of the taskpool: `none` = NULL (request refused,
     `parsec_redistribute` returns PARSEC_ERR_NOT_SUPPORTED and touches nothing). -/
 def validate (dY dT : Desc) (sizeRow sizeCol diY djY diT djT : Int) : Option (Params × Path) :=
@@ -254,13 +260,9 @@ def validate (dY dT : Desc) (sizeRow sizeCol diY djY diT djT : Int) : Option (Pa
   else if diT + sizeRow > dT.lmt * dT.mb ∨ djT + sizeCol > dT.lnt * dT.nb then none
   else if !regionIsStored dY sizeRow.toNat sizeCol.toNat diY.toNat djY.toNat then none
   else if !regionIsStored dT sizeRow.toNat sizeCol.toNat diT.toNat djT.toNat then none
-  else
-    let nc := pairNumCols dY dT sizeCol.toNat
-    if nc ≤ 0 then none
-    else
-      let p : Params := ⟨dY.mb, dY.nb, dT.mb, dT.nb, sizeRow.toNat, sizeCol.toNat,
-                         diY.toNat, djY.toNat, diT.toNat, djT.toNat, nc.toNat⟩
-      some (p, if p.optimized then .reshuffle else .general)
+  else if pairNumCols dY dT sizeCol.toNat ≤ 0 then none
+  else some (mkParams dY dT sizeRow sizeCol diY djY diT djT,
+             pathOf (mkParams dY dT sizeRow sizeCol diY djY diT djT))
 
 /-! ## Task spaces and the copies they issue -/
 
@@ -388,10 +390,16 @@ def windowSpec {α : Type} (p : Params) (src tgt : Nat → Nat → α) : Nat →
     if p.diT ≤ i ∧ i < p.diT + p.sizeRow ∧ p.djT ≤ j ∧ j < p.djT + p.sizeCol
     then src (p.diY + (i - p.diT)) (p.djY + (j - p.djT)) else tgt i j
 
-/-- The copies `parsec_redistribute` performs for a validated request, tasks in JDF enumeration order. -/
-def redistCopies (p : Params) (path : Path) (remote : Task → Bool) : List ECopy :=
+/-- The task space whose bodies write the target (`Update`, resp. the reshuffle `Receive`). -/
+def tasksOf (p : Params) : Path → List Task
+  | .general => generalTasks p
+  | .reshuffle => reshuffleTasks p
+
+/-- The copies `parsec_redistribute` performs for a validated request when the writing tasks execute in
+    the order `order` (a permutation of `tasksOf p path`; the JDF enumeration order is `tasksOf p path`). -/
+def redistCopies (p : Params) (path : Path) (remote : Task → Bool) (order : List Task) : List ECopy :=
   match path with
-  | .general => generalCopies p remote (generalTasks p)
-  | .reshuffle => reshuffleCopies p (reshuffleTasks p)
+  | .general => generalCopies p remote order
+  | .reshuffle => reshuffleCopies p order
 
 end ParsecVerif.Redistribute
